@@ -104,24 +104,37 @@ fn build_confusable(name: &'static str) -> Input {
     let e = Endian::Little;
     let mut d = synth::SynthMinidump::with_endian(e);
     d = d.add_system_info(synth::SystemInfo::new(e).set_processor_architecture(md::ProcessorArchitecture::PROCESSOR_ARCHITECTURE_ARM64 as u16).set_platform_id(md::PlatformId::Linux as u32));
-    let names = ["/lib/m1", "/lib/M1", "/opt/twin_a.so", "/opt/twin_b.so"];
+    let names = ["/lib/m1", "/lib/M1", "/opt/p.so", "/opt/twin_a.so", "/opt/twin_b.so"];
+    // call chains (module indices, innermost first). The twins are reached only AFTER a first lookup of
+    // another module has completed, by two different threads: which twin is asked for first depends on the
+    // completion order of those first lookups.
+    let chains: [[usize; 3]; 3] = [[0, 3, 1], [2, 4, 0], [2, 0, 3]];
     let mut syms = HashMap::new();
-    for t in 0..3u64 {
+    for (t, chain) in chains.iter().enumerate() {
+        let t = t as u64;
         let mut st = Section::with_endian(e);
-        // CFA = sp + 32, return address at cfa - 8: chain through modules (t+1)%4, (t+2)%4, (t+3)%4
+        // CFA = sp + 32, return address at cfa - 8
         for k in 0..16u64 {
-            st = st.D64(if k % 4 == 3 && k / 4 < 3 { 0x4000_2020 + 0x10_0000 * ((t + 1 + k / 4) % 4) } else { 0 });
+            st = st.D64(if k % 4 == 3 && ((k / 4) as usize) < 2 { 0x4000_2020 + 0x10_0000 * chain[(k / 4) as usize + 1] as u64 } else { 0 });
         }
         let stack = synth::Memory::with_section(st, 0x7000_0000 + 0x1000 * t);
-        let ctx = synth::arm64_context(e, 0x4000_1010 + 0x10_0000 * (t % 4), 0x7000_0000 + 0x1000 * t);
+        let ctx = synth::arm64_context(e, 0x4000_1010 + 0x10_0000 * chain[0] as u64, 0x7000_0000 + 0x1000 * t);
         d = d.add_thread(synth::Thread::new(e, 30 + t as u32, &stack, &ctx)).add(stack).add(ctx);
     }
     for (i, n) in names.iter().enumerate() {
         let mname = synth::DumpString::new(n, e);
-        d = d.add_module(synth::Module::new(e, 0x4000_0000 + 0x10_0000 * i as u64, 0x10000, &mname, 1, 0, None)).add(mname);
+        let mut module = synth::Module::new(e, 0x4000_0000 + 0x10_0000 * i as u64, 0x10000, &mname, 1, 0, None);
+        if i >= 3 {
+            // the twins carry the SAME CodeView record (PDB70: one debug file, one GUID + age): the same
+            // binary installed under two names — still two modules, each with its own symbol lookup
+            let cv = Section::with_endian(e).D32(0x5344_5352).D32(0xabcd_1234).D16(0xf00d).D16(0xbeef).append_bytes(b"\x01\x02\x03\x04\x05\x06\x07\x08").D32(1).append_bytes(b"twin.pdb\0");
+            module = module.cv_record(&cv);
+            d = d.add(cv);
+        }
+        d = d.add_module(module).add(mname);
         let text = format!("MODULE Linux arm64 000000000000000000000000000000000 x\nFUNC 1000 100 0 f_{i}\nFUNC 2000 100 0 g_{i}\nSTACK CFI INIT 1000 1100 .cfa: sp 32 + .ra: .cfa -8 + ^\n");
-        // M1 has no symbols at all, twin_b's are corrupt: the four modules end with four different stats
-        syms.insert(n.to_string(), match i { 1 => None, 3 => Some("MODULE Linux arm64 0 x\ncorrupt line\n".to_string()), _ => Some(text) });
+        // M1 has no symbols at all, twin_b's are corrupt: the modules end with different stats
+        syms.insert(n.to_string(), match i { 1 => None, 4 => Some("MODULE Linux arm64 0 x\ncorrupt line\n".to_string()), _ => Some(text) });
     }
     Input { name, dump: Arc::new(d.finish().unwrap()), syms: Arc::new(syms) }
 }
